@@ -853,3 +853,113 @@ theorem repaired_witness :
   decide
 
 end Pharmpy.C16
+
+namespace Pharmpy.C16
+
+/-! ### Exception faults (operation `j` raises, the code's cleanup blocks run)
+
+  `transaction` removes PENDING after the `yield`, outside any `finally`, and
+  releasing the locks touches no file: the code as it is runs no cleanup
+  operation (`unlinkInFinally = false`), so the state after an exception
+  fault is the state after a crash at the same point, and the marker keeps
+  protecting the key. -/
+
+/-- For the code as it is an exception fault leaves exactly the crash state. -/
+theorem exception_fault_eq_crash (c : Call) (fs : FS) (j : Nat) (n : Option Nat) :
+    excFault fs c j n = crash fs (c.ops fs) j n := by
+  have : c.cleanup fs j = [] := by
+    cases c <;> simp [Call.cleanup, Call.cleanupWith, unlinkInFinally, txnCleanup_false]
+  simp [excFault, excFaultWith, unlinkInFinally] at *
+  cases c <;> simp [Call.cleanupWith, txnCleanup_false, applyAll]
+
+/-- Between the creation of the marker and its removal the marker is present,
+    whatever the crash / fault point and torn write (any body that does not
+    address the marker). -/
+theorem txn_marker_present (k : String) (body : Prog Unit)
+    (havoid : ∀ fs o, o ∈ (body fs).1 → o.path ≠ pendingPath k) (fs : FS) (j : Nat) (n : Option Nat)
+    (hP : pexists (applyAll fs (openKey k fs)) (pendingPath k) = false)
+    (h1 : (openKey k fs).length < j) (h2 : j < (txn k body fs).1.length) :
+    pexists (crash fs (txn k body fs).1 j n) (pendingPath k) = true := by
+  unfold txn at h2 ⊢
+  simp only [hP, Bool.false_eq_true, if_false] at h2 ⊢
+  generalize hb : body (apply (applyAll fs (openKey k fs)) (Op.create (pendingPath k))) = br at h2 ⊢
+  obtain ⟨b, r⟩ := br
+  have hbav : ∀ o ∈ b, o.path ≠ pendingPath k := fun o ho => havoid _ o (by rw [hb]; exact ho)
+  have hfs2 : get (applyAll (applyAll fs (openKey k fs)) [Op.create (pendingPath k)]) (pendingPath k)
+      = some (.file (.text [])) := by
+    simp [applyAll, apply, get_cons_self]
+  have mid : ∀ j, (openKey k fs).length < j →
+      pexists (crash fs (openKey k fs ++ (Op.create (pendingPath k) :: b)) j n) (pendingPath k) = true := by
+    intro j hj
+    rw [crash_append_right (Nat.le_of_lt hj)]
+    have e1 : Op.create (pendingPath k) :: b = [Op.create (pendingPath k)] ++ b := rfl
+    rw [e1, crash_append_right (by simp; omega)]
+    simp only [pexists, get_crash_ne _ n hbav, hfs2, Option.isSome_some]
+  cases r with
+  | error e => exact mid j h1
+  | ok u =>
+    simp only [List.length_append, List.length_cons, List.length_nil] at h2
+    simp only
+    rw [show openKey k fs ++ Op.create (pendingPath k) :: b ++ [Op.unlink (pendingPath k)]
+          = (openKey k fs ++ Op.create (pendingPath k) :: b) ++ [Op.unlink (pendingPath k)] by simp]
+    rcases Nat.lt_or_ge j ((openKey k fs).length + 1 + b.length) with h4 | h4
+    · rw [crash_append_left (by simp; omega)]
+      exact mid j h1
+    · rw [crash_append_right (by simp; omega)]
+      have hz : j - (openKey k fs ++ Op.create (pendingPath k) :: b).length = 0 := by simp; omega
+      rw [hz]
+      have : ∀ fsx, crash fsx [Op.unlink (pendingPath k)] 0 n = fsx := by
+        intro fsx; unfold crash; cases n <;> simp [applyAll, Op.tear]
+      rw [this, ← crash_of_length_le (k := j) (n := n) (by simp; omega)]
+      exact mid j h1
+
+/-- **The marker stays after an exception inside the transaction body**: if
+    operation `j` of a store raises after PENDING was created (and `j` is an
+    operation of the call: the removal of PENDING at the latest), PENDING is
+    present afterwards and every reader is refused — nothing partial is
+    visible. -/
+theorem pending_stays_after_exception (m : MDesc) (fs : FS) (j : Nat) (n : Option Nat)
+    (hP : pexists fs (pendingPath m.key) = false)
+    (h1 : (openKey m.key fs).length < j) (h2 : j < (dbStoreEntry m fs).1.length) :
+    pexists (excFault fs (.dbStoreEntry m) j n) (pendingPath m.key) = true ∧
+    (dbRetrieve m.key (excFault fs (.dbStoreEntry m) j n)).2 = .error .pending := by
+  rw [exception_fault_eq_crash, ops_dbStoreEntry]
+  have hp1 : pexists (applyAll fs (openKey m.key fs)) (pendingPath m.key) = false := by
+    simp only [pexists, get_openKey_of (pending_not_openKey m.key m.key)] at hP ⊢; exact hP
+  have key := txn_marker_present m.key (storeEntryBody m) (storeEntryBody_avoids_pending m m.key) fs j n hp1 h1 h2
+  exact ⟨key, by rw [dbRetrieve_result]; simp only [dbStoreEntry]; simp [key]⟩
+
+/-- **visible ⊆ committed after an exception fault**: whatever a reader
+    obtains for the key of a `store_model_entry` whose operation `j` raised
+    (torn or not) is what it obtained before the call or obtains after the
+    completed call. -/
+theorem visible_subset_committed_exception (m : MDesc) (fs : FS) (j : Nat) (n : Option Nat) (e : Entry)
+    (h : (dbRetrieve m.key (excFault fs (.dbStoreEntry m) j n)).2 = .ok e) :
+    (dbRetrieve m.key fs).2 = .ok e ∨
+    ((dbStoreEntry m fs).2 = .ok () ∧ (dbRetrieve m.key (applyAll fs (dbStoreEntry m fs).1)).2 = .ok e) := by
+  rw [exception_fault_eq_crash, ops_dbStoreEntry] at h
+  exact visible_subset_committed m fs j n e h
+
+/-- Entries committed under other keys stay intact after an exception fault. -/
+theorem earlier_commits_intact_exception (m : MDesc) (fs : FS) (j : Nat) (n : Option Nat) (k : String) (e : Entry)
+    (hk : k ≠ m.key) (hk2 : k ≠ ".datasets") (h : (dbRetrieve k fs).2 = .ok e) :
+    (dbRetrieve k (excFault fs (.dbStoreEntry m) j n)).2 = .ok e := by
+  rw [exception_fault_eq_crash, ops_dbStoreEntry]
+  exact earlier_commits_intact m fs j n k e hk hk2 h
+
+/-- With a `try/finally` around the `yield` (marker removed although the body
+    raised) the statement is FALSE: an I/O error while creating `results.json`
+    leaves the model file without results and without marker, and a reader
+    obtains an entry that was never committed — neither the state before the
+    call nor the state after its completion. -/
+theorem exception_finally_witness :
+    let fs := runW [] [.init]
+    let m : MDesc := { wM1 with res := some "R" }
+    (dbRetrieve "K1" fs).2 = .error .notFound ∧
+    (dbRetrieve "K1" (applyAll fs (dbStoreEntry m fs).1)).2 = .ok m.entry ∧
+    (dbRetrieve "K1" (excFaultWith true fs (.dbStoreEntry m) 14 none)).2
+      = .ok { code := "M1", dataset := some "H1", di := some "D1", res := none } ∧
+    (dbRetrieve "K1" (excFault fs (.dbStoreEntry m) 14 none)).2 = .error .pending := by
+  decide
+
+end Pharmpy.C16
